@@ -74,7 +74,7 @@ CHECKS = {
     ),
     "C04": dict(
         technique="property-based testing with a deterministic node clock (cancellation instant and overrun measured in nodes through a cfg hook) plus generated Stop/drop scripts against the real thread wrapper under a watchdog",
-        text="Generated-input search: roots incl. terminal and low-mobility positions, depth none/small/huge, 1-32 scheduled workers, Stop raised by a node clock at generated instants, on fresh memory and after one or two complete searches (mostly of the same root) on the same memory: no panic, at most 20 x 10000 x workers nodes after the Stop request, terminal roots report nothing and return, returned artifact seeds the next search. Public Searcher::analyze driven by generated scripts (Stop now/after first event/after completion/twice, drop receiver): join() returns Ok within a 60 s watchdog while the sender is still held. Depth limits of 150-5999 on kings-and-pawns roots run in child processes that must not die (stack).",
+        text="Generated-input search: roots incl. terminal and low-mobility positions, depth none/small/huge, 1-32 scheduled workers, Stop raised by a node clock at generated instants, on fresh memory and after one or two complete searches (mostly of the same root) on the same memory: no panic, at most 20 x 10000 x workers nodes after the Stop request, terminal roots report nothing and return, returned artifact seeds the next search. Public Searcher::analyze driven by generated scripts (Stop now/after first event/after completion/twice, drop receiver): join() returns Ok within a 60 s watchdog while the sender is still held, and a depth-limited follow-up search seeded with the returned artifact (incl. the artifact of a terminal root searched on the engine's own fresh memory) ends by itself with a legal line. Depth limits of 150-5999 on kings-and-pawns roots run in child processes that must not die (stack).",
         note="liveness decided in nodes on the synchronous path; wall-clock watchdog (>=100x typical) only for the thread/channel wrapper",
         ref="DESIGN.md 6 C04",
     ),
